@@ -15,7 +15,7 @@ ASSUMPTIONS = ["bit-identical means equal pickled byte images of every field of 
                "TSan/helgrind are not used (CPython is not instrumented); schedules are those produced by the interpreter with switch interval 1e-6 and injected sleep(0) yields at LINE events of coneprog/cvxprog/misc"]
 ENTRIES = ["conelp", "coneqp", "lp", "qp", "socp", "sdp", "cpl", "cp", "gp", "op"]
 REQUIRED_COUNTERS = ["iso." + e for e in ENTRIES] + ["immutability-checks", "global-state-checks", "options-precedence-checks",
-                                                      "validation-rejections", "budget-checks", "monotone-tolerance-checks", "split-tolerance-checks", "split-tolerance-checks.dinf.relative-only", "iso.rank-deficient-A",
+                                                      "validation-rejections", "budget-checks", "monotone-tolerance-checks", "split-tolerance-checks", "split-tolerance-checks.dinf.relative-only", "iso.rank-deficient-A", "integer-valued-tolerance-checks",
                                                       "hist.calls-vs-fresh-process", "threads.runs", "threads.results-compared",
                                                       "threads.context-switches-in-solver", "threads.homogeneous-runs", "iso.empty-options-dict", "refinement-checks"]
 
@@ -95,7 +95,7 @@ def run(ctx):
                     self.pr.A = np.vstack([self.pr.A, self.pr.A[:1]]); self.pr.b = np.concatenate([self.pr.b, self.pr.b[:1]])
                     self.rank_deficient = True
                 self.args = sr.cvx_args(self.pr, rng, sparseG=rng.random() < 0.3) if e == "conelp" else \
-                    sr.wrapper_args(e, self.pr, rng, sparse=rng.random() < 0.3)
+                    sr.wrapper_args(e, self.pr, rng, sparse=rng.random() < 0.3, junk=(e == "sdp" and rng.random() < 0.5))
                 if rng.random() < 0.3 and self.pr.kind == "feasible":
                     ps, ds, _, _ = sr.start_dicts(e, self.pr, rng.choice(["primal", "dual", "both"]), rng)
                     self.kw["ps"], self.kw["ds"] = ps, ds
@@ -261,6 +261,13 @@ def run(ctx):
         # --- repeatability: same call again on the original object (history: one solve before)
         r_again = run_frozen(call, options=opts, kkt=kk_)
         c.require(r_again == r_kw, entry + ":second-identical-call-differs", "repeating the identical call gave a different result")
+        # --- valid option values of integer type are honoured like their float equivalents (documented: "scalar")
+        if entry != "op":
+            r_int = run_frozen(call, options=dict(QUIET, reltol=0, abstol=1e-7))
+            r_flt = run_frozen(Call(entry, seed), options=dict(QUIET, reltol=0.0, abstol=1e-7))
+            ctx.count("integer-valued-tolerance-checks")
+            c.require(r_int == r_flt, entry + ":integer-tolerance-differs-from-float",
+                      "options reltol=0 (int) and reltol=0.0 give different outcomes: %s / %s" % (status_of(r_int) if r_int[0] != "exc" else r_int[:3], status_of(r_flt) if r_flt[0] != "exc" else r_flt[:3]))
         # --- validation
         name, val = INVALID[(c.k // len(ENTRIES) + ctx.worker) % len(INVALID)]
         bad = dict(QUIET)
